@@ -33,7 +33,7 @@ def run(ctx):
     binary = vlib.go_build("ante", ctx)
     case = ctx.replay_case()
     if case:
-        res = vlib.run_driver(ctx, binary, [], behaviours=[case["steps"]], timeout=1200)
+        res = vlib.run_driver(ctx, binary, ["-mode", "signers"] if case.get("mode") == "signers" else [], behaviours=[case["steps"]], timeout=1200)
         vlib.handle_driver_results(ctx, res)
         ctx.cov.update({"states": 1, "transitions": 1, "traces_validated_against_impl": 1})
         ctx.sample(case["steps"][-1])
@@ -62,13 +62,15 @@ def run(ctx):
         with lock:
             return orig(name)
     ctx.scratch_dir = locked
-    ths = [threading.Thread(target=f) for f in (edges, sims)]
+    def signer_edges():
+        out["g"] = vlib.run_tlc(ctx, "MCAnteSigners", "AnteSigners_qe.cfg", tags=("EDGE",), timeout=3000, workers=4, jvm=JVM)
+    ths = [threading.Thread(target=f) for f in (edges, sims, signer_edges)]
     for t in ths:
         t.start()
     for t in ths:
         t.join()
     ctx.scratch_dir = orig
-    if "e" not in out or "s" not in out:
+    if "e" not in out or "s" not in out or "g" not in out:
         raise vlib.Inconclusive("TLC-ERROR", "a TLC run did not return")
     r, rs = out["e"], out["s"]
     vlib.require_model_ok(r, ecfg)
@@ -110,6 +112,30 @@ def run(ctx):
         raise vlib.Inconclusive("VACUOUS", "input classes never generated: %s" % missing)
     ctx.cov["input_classes"] = len(seen)
     ctx.cov["replays_of_accepted_tx"] = seen.get("replay-of-accepted", 0)
+    # second machine (AnteSigners.tla): WHO must sign - messages with several signers, on the real ante handler + keepers
+    g = out["g"]
+    vlib.require_model_ok(g, "AnteSigners_qe.cfg")
+    ctx.add_tlc(g, "exhaustive (EverySignerSigned, ExactlyOneEach, SeqExactlySigners, RejectIsNoOp) + one behaviour per edge, AnteSigners_qe.cfg")
+    gb = vlib.dedup_prefix(g.traces)
+    ctx.cov["signer_edges_emitted"] = len(g.traces)
+    if quick:
+        rng2 = random.Random(ctx.seed + 17)
+        trap = [b for b in gb if b[-1].get("trap")]
+        rest = [b for b in gb if not b[-1].get("trap")]
+        rng2.shuffle(trap)
+        rng2.shuffle(rest)
+        gb = trap[:800] + rest[:700]
+    ctx.cov["signer_edges_replayed"] = len(gb)
+    gres = vlib.run_driver(ctx, binary, ["-mode", "signers"], behaviours=gb, timeout=3000)
+    gs = vlib.handle_driver_results(ctx, gres)
+    if gs.get("flaky"):
+        raise vlib.Inconclusive("FLAKY", "%d signer-set behaviours failed once and passed on a fresh keeper" % gs["flaky"])
+    if not gs.get("trap_rejected") or not gs.get("trap_accepted"):
+        raise vlib.Inconclusive("VACUOUS", "no transaction whose later message starts with the last collected signer and needs further signers (rejected %s, accepted %s)" % (gs.get("trap_rejected"), gs.get("trap_accepted")))
+    ctx.cov["later_message_starts_with_last_collected_signer"] = {"under-signed, must be rejected": int(gs["trap_rejected"]), "fully signed, must be accepted": int(gs["trap_accepted"])}
+    ctx.add("traces_validated_against_impl", int(gs.get("replays", 0)))
+    ctx.add("impl_steps", int(gs.get("steps", 0)))
+    ctx.log("%d signer-set behaviours replayed on the real ante handler (%d txs), %d ok" % (len(gb), gs.get("steps", 0), gs.get("replays_ok", 0)))
     res = vlib.run_driver(ctx, binary, [], behaviours=behs + rs.traces, timeout=6000)
     s = vlib.handle_driver_results(ctx, res)
     if s.get("flaky"):
@@ -122,4 +148,5 @@ def run(ctx):
         "secp256k1 signatures of the test keys verify / fail as the primitive specifies (C44/C47 territory)",
         "quick tier: histories of 2 submissions exhaustively in the model, of which all resubmissions of accepted transactions and a seeded sample of the remaining edges are replayed, plus simulated histories of 7; the thorough tier replays every edge of the 3-submission graph",
         "the fee collector is shared between behaviours run in the same blocks: the fee is observed at the payer",
+        "messages with several signers exist only as the repository's registered test message (testutils.TestMsg): the signer-set machine is bound to Tx.GetSigners / Tx.ValidateBasic / the real ante handler and keepers, not to the full application",
     ]
